@@ -75,6 +75,7 @@ static bool release_block(void* p) {
   if (h->magic != MAGIC_LIVE) { g.foreign_free++; return false; }
   unlink(h);
   h->magic = MAGIC_DEAD;
+  if (g.log_frees) g.freed_serials.push_back(h->serial);
   g.live_blocks--; g.live_bytes -= h->size;
   // scribble so stale reads of released storage are visible even without ASan
   memset(user_of(h), 0xDD, h->size);
@@ -113,7 +114,7 @@ void reset_counters() {
   g.refused_single = g.refused_total = g.refused_fault = 0;
   g.max_request = 0;
   g.foreign_free = g.double_free = 0;
-  g.size_log.clear(); g.granted_log.clear();
+  g.size_log.clear(); g.granted_log.clear(); g.freed_serials.clear();
 }
 void reset_faults() { g.fail_at = -1; g.fail_from = -1; }
 
@@ -148,6 +149,14 @@ size_t size_of(const void* p) {
     h = n;
   }
   return (size_t)-1;
+}
+
+uint64_t peek_serial(const void* p) {
+  Hdr* h = hdr_of((void*)p);
+  UNPOISON(h, HDR);
+  uint64_t s = h->magic == MAGIC_LIVE ? h->serial : 0;
+  POISON(h, HDR);
+  return s;
 }
 
 uint64_t image_hash() {
